@@ -229,7 +229,9 @@ func init() { runtime.GOMAXPROCS(1) }
 // larger one), then every case behind its prelude.  A change that does not depend on earlier
 // calls fails in the first block; one that does fails in the line whose prelude causes it, not
 // in some later line without a prelude (whose failing input would not fail when replayed alone).
-// Early also because the heap is small then: every P line starts with two garbage collections.
+// Early also because the heap is small then: every P line starts with two garbage collections
+// (their cost grows with the heap: the thorough tier has 4 times the P lines of the quick tier,
+// not 20 times).
 type heldLine struct {
 	prelude, line string
 	ptags, tags   []string
@@ -333,7 +335,7 @@ func genPreludes(g *tr.G) {
 		}
 	}
 	// random pairs from a common base under ==, key equivalences and the partial equivalence
-	for i := 0; i < g.Scale(1400, 28000); i++ {
+	for i := 0; i < g.Scale(1400, 5000); i++ {
 		mode := tr.Pick(g.R, []int{0, 0, 0, 2, 3, 102, 103, -4})
 		nsym := 3
 		if mode > 0 {
@@ -344,7 +346,7 @@ func genPreludes(g *tr.G) {
 		emit("E "+strconv.Itoa(mode)+" "+tr.Ints(l)+" "+tr.Ints(r)+caps(i), len(l), len(r), "prelude-random")
 	}
 	// both arguments views of one array
-	for i := 0; i < g.Scale(400, 8000); i++ {
+	for i := 0; i < g.Scale(400, 1200); i++ {
 		n := g.R.Range(1, 30)
 		arr := rnd(n, 3)
 		a := g.R.Intn(n + 1)
@@ -363,7 +365,7 @@ func genPreludes(g *tr.G) {
 		nsym int
 	}
 	typed := []tm{{-5, "f", 5}, {102, "s", 6}, {2, "t", 6}, {0, "i", 3}, {0, "h", 6}, {103, "t", 6}}
-	for i := 0; i < g.Scale(600, 12000); i++ {
+	for i := 0; i < g.Scale(600, 2000); i++ {
 		m := typed[i%len(typed)]
 		base := rnd(g.R.Range(0, 30), m.nsym)
 		l, r := derive(base, m.nsym), derive(base, m.nsym)
